@@ -34,6 +34,8 @@ class StubGlyph:
         self.glyph_id = gid
         self.bitmap = png
         self.bitmap_filename = name or f"g{gid}.png"
+        # the name in the UFO; the compiled font may call the glyph something else (keep_glyph_names off)
+        self.ufo_glyph_name = f"ufo_name_of_{gid}"
 
 
 class StubFont(dict):
@@ -129,6 +131,12 @@ def replay_metrics(inp):
         if h > 255 or not (-129 <= y_ideal <= 128):
             return None
         return {"spurious_rejection": repr(e), "y_ideal": y_ideal}
+    if fmt == "sbix":
+        font = StubFont()
+        BT.make_sbix_table(cfg, font, [StubGlyph(3, png)])
+        strike = list(font["sbix"].strikes.values())[0]
+        if "glyph3" not in strike.glyphs or strike.glyphs["glyph3"].imageData is not png:
+            return {"sbix strike keys": sorted(strike.glyphs), "the font calls glyph id 3": "glyph3", "problem": "the image is not filed under the font's name for its glyph id (it would be dropped when the table is compiled)"}
     if fmt == "cbdt":
         top, bottom = m.y_offset, m.y_offset - h
     else:
@@ -195,9 +203,9 @@ def job_metrics(jc):
         font = StubFont()
         BT.make_sbix_table(cfg, font, [StubGlyph(3, png)])
         (ppem, strike), = font["sbix"].strikes.items()
-        g = strike.glyphs["glyph3"]
-        if g.imageData is not png:
-            raise core.HarnessError("imageData is not the PNG object")
+        g = strike.glyphs.get("glyph3")  # StubFont calls glyph id 3 "glyph3"
+        if g is None or g.imageData is not png or g.glyphName != "glyph3":
+            return "sbix image not filed under the font's name for the glyph id", sorted(strike.glyphs)
         adv = BT._width_in_pixels(cfg, png)
         A = CG._advance_width(Rect(0, 0, w, h), cfg)
         return cfg, w, g.originOffsetX, g.originOffsetY + h, g.originOffsetY, adv, strike.ppem, (w, h), A
@@ -214,6 +222,10 @@ def job_metrics(jc):
             y_ideal = core.sym_round(core.SymNum(z3.ToReal(asc) * R(Fraction(ppem, upem)) - R(Fraction(lh - h, 2))))
             justified = z3.Or(z3.BoolVal(h > 255), y_ideal.t > 128, y_ideal.t < -129)
             jc.prove(r, justified, "rejection only for unrepresentable metrics", inp, replay_metrics, key="C14:metrics:spurious-rejection")
+            continue
+        if isinstance(r.value[0], str):
+            jc.reach(r, "ok")
+            jc.prove(r, z3.BoolVal(False), "sbix: the image is filed under the name the font gives the glyph id, and is the source's PNG", inp, replay_metrics, key="C14:sbix:glyph-name")
             continue
         cfg, w, x_off, top, bottom, adv_px, ppem, dims, A = r.value
         STRIKE_OF = {}
